@@ -1,69 +1,132 @@
 /-
-C19 - every successful result is a well-formed PromQL value (partial: labels and assembly;
-duplicate label sets after name dropping are known finding KF-no-duplicate-check).
+C19 - every successful result is a well-formed PromQL value. Proven for every plan: label sets
+(sorted by name, no repeated name, no empty value) when no vector-vector operator carries include
+labels - with include labels the engine's join appends them (known finding KF-binary-include-labels,
+model witness below); timestamps strictly increasing; no empty series; no staleness marker (the
+value type of a step vector has none). Duplicate label sets after name dropping are known finding
+KF-no-duplicate-check.
 -/
-import PromqlVerif.Eng
+import PromqlVerif.Proofs.PlanContract
+import PromqlVerif.Proofs.Grid
 namespace PromqlVerif.C19
 open PromqlVerif Val
 
 variable {V : Type} [Val V]
 
-theorem sortedBy_filter (p : Label → Bool) : ∀ (ls : Labels), Labels.sortedBy ls = true → Labels.sortedBy (ls.filter p) = true := by
-  intro ls
-  -- strengthen: filtering keeps "all names above a bound"
-  have aux : ∀ (ls : Labels) (x : Label), Labels.sortedBy (x :: ls) = true →
-      Labels.sortedBy (ls.filter p) = true ∧ ∀ y ∈ ls.filter p, x.name < y.name := by
-    intro ls
-    induction ls with
-    | nil => intro x _; simp [Labels.sortedBy]
-    | cons y ys ih =>
-      intro x h
-      simp only [Labels.sortedBy, Bool.and_eq_true, decide_eq_true_eq] at h
-      obtain ⟨hxy, hrest⟩ := h
-      obtain ⟨hs, hall⟩ := ih y hrest
-      have hall' : ∀ z ∈ ys.filter p, x.name < z.name := fun z hz => String.lt_trans hxy (hall z hz)
-      simp only [List.filter_cons]
-      split
-      · constructor
-        · cases hf : ys.filter p with
-          | nil => simp [Labels.sortedBy]
-          | cons z zs =>
-            simp only [Labels.sortedBy, Bool.and_eq_true, decide_eq_true_eq]
-            exact ⟨hall z (by rw [hf]; exact List.mem_cons_self ..), by rw [← hf]; exact hs⟩
-        · intro z hz
-          rcases List.mem_cons.mp hz with rfl | hz
-          · exact hxy
-          · exact hall' z hz
-      · exact ⟨hs, hall'⟩
-  intro h
-  cases ls with
-  | nil => rfl
-  | cons x xs =>
-    obtain ⟨hs, hall⟩ := aux xs x h
-    simp only [List.filter_cons]
-    split
-    · cases hf : xs.filter p with
-      | nil => simp [Labels.sortedBy]
-      | cons z zs =>
-        simp only [Labels.sortedBy, Bool.and_eq_true, decide_eq_true_eq]
-        exact ⟨hall z (by rw [hf]; exact List.mem_cons_self ..), by rw [← hf]; exact hs⟩
-    · exact hs
-
 /-- dropping the metric name, `by`/`without` projection and `on`/`ignoring` signatures keep a
 label set sorted by name, without repeated names and without empty values -/
-theorem wf_filter (p : Label → Bool) (ls : Labels) (h : ls.wf = true) : Labels.wf (ls.filter p) = true := by
-  simp only [Labels.wf, Bool.and_eq_true, List.all_eq_true] at h ⊢
-  exact ⟨sortedBy_filter p ls h.1, fun l hl => h.2 l (List.mem_filter.mp hl).1⟩
+theorem wf_filter (p : Label → Bool) (ls : Labels) (h : ls.wf = true) : Labels.wf (ls.filter p) = true :=
+  PromqlVerif.wf_filter p ls h
 
-theorem dropName_wf (ls : Labels) (h : ls.wf = true) : ls.dropName.wf = true := wf_filter _ ls h
-theorem keep_wf (ls : Labels) (g : List String) (h : ls.wf = true) : (ls.keep g).wf = true := wf_filter _ ls h
-theorem del_wf (ls : Labels) (g : List String) (h : ls.wf = true) : (ls.del g).wf = true := wf_filter _ ls h
+theorem dropName_wf (ls : Labels) (h : ls.wf = true) : ls.dropName.wf = true := PromqlVerif.dropName_wf ls h
+theorem keep_wf (ls : Labels) (g : List String) (h : ls.wf = true) : (ls.keep g).wf = true := PromqlVerif.keep_wf ls g h
+theorem del_wf (ls : Labels) (g : List String) (h : ls.wf = true) : (ls.del g).wf = true := PromqlVerif.del_wf ls g h
 
-theorem groupLabels_wf (w : Bool) (g : List String) (ls : Labels) (h : ls.wf = true) : (groupLabels w g ls).wf = true := by
-  unfold groupLabels
-  split
-  · exact dropName_wf _ (del_wf ls g h)
-  · exact keep_wf ls g h
+theorem groupLabels_wf (w : Bool) (g : List String) (ls : Labels) (h : ls.wf = true) : (groupLabels w g ls).wf = true :=
+  PromqlVerif.groupLabels_wf w g ls h
+
+/-- **every operator of every plan has well-formed series labels**: for every well-typed expression
+over the natively supported constructs whose vector-vector operators carry no include labels,
+every storage with well-formed label sets, every window and lookback - the series list of the
+operator built for it (and of every operator below it) consists of label sets sorted by name,
+without repeated names, without empty values -/
+theorem every_operator_has_wellformed_labels (c : Ctx V) (hst : ∀ sr ∈ c.st, Labels.wf sr.labels = true)
+    (b : Bool) (e : Expr V) (h : WT (fun m => m.incl = []) b e) (o : OpSem V) (ho : engOp c e = .ok o) :
+    ∀ ls ∈ o.series, Labels.wf ls = true :=
+  (plan_contract c b e h o ho).2.2 ⟨fun _ hm => hm, hst⟩
+
+theorem mapM_steps_fst (f : Int → Except Err (IdVec V)) : ∀ (grid : List Int) (steps : List (Int × IdVec V)),
+    grid.mapM (fun t => (f t).map fun xs => (t, xs)) = .ok steps → steps.map (·.1) = grid := by
+  intro grid
+  induction grid with
+  | nil => intro steps h; simp only [List.mapM_nil, pure, Except.pure, Except.ok.injEq] at h; subst h; rfl
+  | cons t ts ih =>
+    intro steps h
+    simp only [List.mapM_cons, bind, Except.bind] at h
+    generalize hr : ts.mapM (fun t => (f t).map fun xs => (t, xs)) = r at h
+    cases hf : f t with
+    | error e => simp [hf, Except.map] at h
+    | ok xs =>
+      simp only [hf, Except.map] at h
+      cases r with
+      | error e => simp at h
+      | ok rest =>
+        simp only [pure, Except.pure, Except.ok.injEq] at h
+        subst h
+        simp [ih rest hr]
+
+theorem enum_snd_mem {α : Type} (l : List α) : ∀ q ∈ enum l, q.2 ∈ l := by
+  have : ∀ (k : Nat) (l : List α), ∀ q ∈ enumFrom k l, q.2 ∈ l := by
+    intro k l
+    induction l generalizing k with
+    | nil => intro q hq; cases hq
+    | cons a l ih =>
+      intro q hq
+      simp only [enumFrom] at hq
+      rcases List.mem_cons.mp hq with rfl | hq
+      · exact List.mem_cons_self ..
+      · exact List.mem_cons_of_mem _ (ih _ q hq)
+  exact this 0 l
+
+/-- **the assembled range result**: every series of a successful range result carries a label set
+of the root operator, and its points are in strictly increasing time order -/
+theorem range_result_series (c : Ctx V) (w : Window) (e : Expr V) (hs : 0 < w.step)
+    (ss : List (Labels × List (Int × V))) (h : engRun c w e = .matrix ss) :
+    ∃ o, engOp c e = .ok o ∧ ∀ s ∈ ss, s.1 ∈ o.series ∧ (s.2.map (·.1)).Pairwise (· < ·) := by
+  unfold engRun at h
+  split at h
+  · cases h
+  · rename_i o ho
+    refine ⟨o, ho, ?_⟩
+    split at h
+    · cases h
+    · rename_i series hcol
+      have hb : (w.step != 0) = true := by simp; omega
+      rw [if_pos hb] at h
+      cases h
+      intro s hs'
+      have hp : s ∈ List.filter (fun s => !s.2.isEmpty) series :=
+        (List.mergeSort_perm _ _).mem_iff.mp hs'
+      have hmem := (List.mem_filter.mp hp).1
+      unfold engCollect at hcol
+      simp only [bind, Except.bind] at hcol
+      split at hcol
+      · cases hcol
+      · rename_i steps hsteps
+        simp only [pure, Except.pure, Except.ok.injEq] at hcol
+        subst hcol
+        obtain ⟨q, hq, rfl⟩ := List.mem_map.mp hmem
+        refine ⟨enum_snd_mem o.series q hq, ?_⟩
+        simp only
+        have hfst := mapM_steps_fst o.step w.grid steps hsteps
+        have hsub : ((steps.filterMap fun (p : Int × IdVec V) =>
+            (p.2.find? (·.1 == q.1)).map fun x => (p.1, x.2)).map (·.1)).Sublist (steps.map (·.1)) := by
+          generalize steps = l
+          induction l with
+          | nil => simp
+          | cons a l ih =>
+            simp only [List.filterMap_cons, List.map_cons]
+            cases a.2.find? (·.1 == q.1) with
+            | none => exact ih.cons _
+            | some x => simp only [Option.map_some, List.map_cons]; exact ih.cons_cons _
+        rw [hfst] at hsub
+        exact (C07_grid_lt w hs).sublist hsub
+where
+  C07_grid_lt (w : Window) (hs : 0 < w.step) : w.grid.Pairwise (· < ·) := by
+    unfold Window.grid
+    have : ¬ w.step ≤ 0 := by omega
+    simp only [this, if_false]
+    exact walk_pairwise_lt _ _ hs _ _
+
+/-- so, for the plans of `every_operator_has_wellformed_labels`, every label set of a successful
+range result is well-formed -/
+theorem range_result_labels_wellformed (c : Ctx V) (hst : ∀ sr ∈ c.st, Labels.wf sr.labels = true)
+    (b : Bool) (e : Expr V) (hwt : WT (fun m => m.incl = []) b e) (w : Window) (hs : 0 < w.step)
+    (ss : List (Labels × List (Int × V))) (h : engRun c w e = .matrix ss) :
+    ∀ s ∈ ss, Labels.wf s.1 = true := by
+  obtain ⟨o, ho, hall⟩ := range_result_series c w e hs ss h
+  intro s hs'
+  exact every_operator_has_wellformed_labels c hst b e hwt o ho s.1 (hall s hs').1
 
 /-- a successful range result of the engine has no empty series -/
 theorem range_result_no_empty_series (c : Ctx V) (w : Window) (e : Expr V) (hs : w.step ≠ 0)
